@@ -255,8 +255,30 @@ func clCleanupOrder(c *Ctx) {
 			callb = call
 		}
 	}
+	// who may call the destructor: only the cleanup scan, only while the
+	// isDestructorRunning try-lock is held (destructors of successive sessions
+	// must neither overlap nor overtake each other)
+	nsites := 0
+	for _, g := range p.Funcs {
+		for _, in := range p.Own(g) {
+			call, ok := in.(ssa.CallInstruction)
+			if !ok || call.Common().StaticCallee() != nil || call.Common().IsInvoke() || lastField(call.Common().Value) != fCallb {
+				continue
+			}
+			nsites++
+			c.Check(p.sameRoot(g, fn), g, in, "the session destructor is invoked only from the cleanup scan (doCleanup)",
+				"a destructor call outside the scan is not ordered by freeSeqno and not serialised by the isDestructorRunning flag")
+			if _, isGo := in.(*ssa.Go); isGo {
+				c.Check(false, g, in, "the session destructor is invoked synchronously", "destructors of successive sessions run concurrently")
+			}
+		}
+	}
+	if nsites == 0 {
+		undecidedf("no call of AccessBarrier.callb found in the module")
+	}
+	clDestructorUnderTryLock(c, fn, fCallb)
 	if callb == nil {
-		undecidedf("doCleanup: destructor call not found")
+		return // reported above
 	}
 	var isFreePlus1 func(v ssa.Value) bool
 	isFreePlus1 = func(v ssa.Value) bool {
@@ -350,6 +372,90 @@ func clCleanupOrder(c *Ctx) {
 				c.Check(gap || ended, fn, ret, "cleanup stops only at a gap in the close numbers or at the end of the queue", "cleanup gives up although the next session is ready: it stays pending")
 			}
 		}
+	}
+}
+
+// the destructor call (or the call of the function containing it) happens
+// between the successful CAS(isDestructorRunning,0,1) and the reset to 0
+func clDestructorUnderTryLock(c *Ctx, cleanup *ssa.Function, fCallb *types.Var) {
+	p := c.P
+	fRun := p.Field("skiplist", "AccessBarrier", "isDestructorRunning")
+	root := p.Root(cleanup)
+	// protected operations in the root: the callb calls (when the scan is
+	// flattened into the root) or the calls of the scan function
+	type site struct {
+		fi *FuncInfo
+		in ssa.Instruction
+	}
+	var sites []site
+	isCallb := func(in ssa.Instruction) bool {
+		call, ok := in.(ssa.CallInstruction)
+		return ok && call.Common().StaticCallee() == nil && !call.Common().IsInvoke() && lastField(call.Common().Value) == fCallb
+	}
+	holders := []*ssa.Function{root}
+	if root == cleanup {
+		// the scan is a function of its own with several callers: each call site is a protected operation
+		holders = nil
+		for _, g := range p.Funcs {
+			for _, in := range p.Own(g) {
+				if call, ok := in.(ssa.CallInstruction); ok && call.Common().StaticCallee() == cleanup {
+					sites = append(sites, site{p.Info(p.Root(g)), in})
+				}
+			}
+		}
+	}
+	for _, h := range holders {
+		fi := p.Info(h)
+		for _, in := range fi.Instrs {
+			if isCallb(in) {
+				sites = append(sites, site{fi, in})
+			}
+		}
+	}
+	for _, s := range sites {
+		fi := s.fi
+		var acquires, releases []ssa.Instruction
+		for _, in := range fi.Instrs {
+			k, on := atomicOnField(in, fRun)
+			if !on {
+				continue
+			}
+			args := callOf(in).Args
+			switch {
+			case k == "CAS" && isConstInt(0)(args[1]) && isConstInt(1)(args[2]):
+				acquires = append(acquires, in)
+			case (k == "CAS" && isConstInt(0)(args[2])) || (k == "Store" && isConstInt(0)(args[1])):
+				releases = append(releases, in)
+			}
+		}
+		held := fi.Guarded(s.in, func(v ssa.Value, val bool) bool {
+			if !val {
+				return false
+			}
+			for _, a := range acquires {
+				if v == a.(ssa.Value) {
+					return true
+				}
+			}
+			return false
+		})
+		c.Check(held, fi.Fn, s.in, "the destructor runs only after winning the isDestructorRunning try-lock", "two goroutines run the cleanup scan at once: a session is destructed twice or out of order")
+		for _, r := range releases {
+			isAcq := func(x ssa.Instruction) bool {
+				for _, a := range acquires {
+					if a == x {
+						return true
+					}
+				}
+				return false
+			}
+			esc := fi.PathAvoiding(r, func(x ssa.Instruction) bool { return x == s.in }, isAcq)
+			c.Check(esc == nil, fi.Fn, r, "no destructor call after the isDestructorRunning flag was dropped (without winning it again)",
+				"destructors run outside the try-lock: the next cleanup can destruct a later session concurrently with, or before, this one — objects of a later session are freed while an earlier one is still being destructed")
+		}
+	}
+	if len(sites) == 0 {
+		c.Check(false, cleanup, nil, "the destructor call is serialised by the isDestructorRunning try-lock", "no destructor call found under the try-lock holder")
 	}
 }
 
